@@ -1,4 +1,36 @@
-/* White-box unit for alg/crc32c.c (C03): exposes the dispatch variable of CRC32C_Update. */
+/* White-box unit for alg/crc32c.c (C03): exposes the dispatch variable of CRC32C_Update.
+ * With -DHC_BLACKBOX (notes/blackbox.md) crc32c.c is a separate unit: the path is what the public
+ * cpusupport_x86_sse42() says about this build on this host; nothing can be reset or pinned. */
+#ifdef HC_BLACKBOX
+#include "cpusupport.h"
+#include "h_cpu.h"
+
+const char *
+hcpu_crc_path(void)
+{
+
+#if defined(CPUSUPPORT_X86_SSE42)
+	if (cpusupport_x86_sse42()) {
+#if defined(CPUSUPPORT_X86_SSE42_64)
+		return ("sse42_64");
+#else
+		return ("sse42_32");
+#endif
+	}
+#endif
+	return ("software");
+}
+
+void
+hcpu_crc_reset(void)
+{
+}
+
+void
+hcpu_crc_force(void)
+{
+}
+#else
 #include "crc32c.c"
 #include "h_cpu.h"
 
@@ -48,3 +80,4 @@ hcpu_crc_force(void)
 #endif
 #endif
 }
+#endif /* !HC_BLACKBOX */
